@@ -1,11 +1,219 @@
-/- Oracle operations, group Utxo (see /verif/CONVENTIONS.md). -/
+/- Oracle operations, group Utxo (C15): `utxo.run`, `fee.*`, `sat.*`. Formats: harness/utxo.go. -/
 import BtcVerif.Oracle.Util
+import BtcVerif.Model.Utxo
+import BtcVerif.Model.Fee
+import BtcVerif.Prim.SHA256
 
 namespace BtcVerif.Oracle
-open BtcVerif
+open BtcVerif BtcVerif.Model BtcVerif.Prim
+open BtcVerif.Model.Utxo (Entry State Op Out)
 
+namespace UtxoOps
+
+/-- `txn.Hash(false)` -/
+def txidOf (t : Tx) : Option Bytes :=
+  match encTx t false with
+  | .ok bs => some (dsha256 bs)
+  | _ => none
+
+def hash32 (s : String) : Option Bytes := do
+  let b ← parseHex s
+  if b.length = 32 then some b else none
+
+def u32? (s : String) : Option Nat := do
+  let n ← s.toNat?
+  if n < 4294967296 then some n else none
+
+def u64? (s : String) : Option Nat := do
+  let n ← s.toNat?
+  if n < 18446744073709551616 then some n else none
+
+def key? (h i : String) : Option PrevOut := do
+  let hash ← hash32 h
+  let idx ← u32? i
+  some ⟨hash, idx⟩
+
+def entryStr (e : Entry) : String :=
+  s!"{hexOf e.1.hash}:{e.1.index}:{e.2.value}:{hexOf e.2.script}"
+
+def listStr (l : List Entry) : String := "[" ++ joinWith "," (l.map entryStr) ++ "]"
+
+def outStr : Out → String
+  | .unit => "u"
+  | .panic => "p"
+  | .err => "e"
+  | .found none => "nil"
+  | .found (some e) => "f=" ++ entryStr e
+  | .size n => s!"s={n}"
+  | .list l => "l=" ++ listStr l
+
+def parseWatched (s : String) : Option (List Bytes) :=
+  if s == "_" then some [] else
+  (s.splitOn ",").mapM fun p => if p == "-" then some [] else do
+    let b ← parseHex p
+    if b.isEmpty then none else some b
+
+def parseOuts : List String → Option (List (Option PrevOut × TxOut))
+  | [] => some []
+  | h :: i :: v :: s :: rest => do
+    let k ← key? h i
+    let value ← u64? v
+    let script ← parseHex s
+    let tl ← parseOuts rest
+    some ((some k, ⟨value, script⟩) :: tl)
+  | _ => none
+
+/-- `none`: malformed request; `some none`: a block that does not decode (answer `x`) -/
+def parseOp (watched : List Bytes) (s : String) : Option (Option Op) :=
+  match s.splitOn ":" with
+  | ["a", h, i, v, sc] => do
+    let k ← key? h i
+    let value ← u64? v
+    let script ← parseHex sc
+    some (some (.add (some k) ⟨value, script⟩))
+  | ["an"] => some (some (.add none ⟨0, []⟩))
+  | ["ro", h, i] => do let k ← key? h i; some (some (.removeByOutpoint (some k)))
+  | ["ron"] => some (some (.removeByOutpoint none))
+  | ["rh", h, i] => do let k ← key? h i; some (some (.removeByHash k.hash k.index))
+  | ["rt", t, i] => do
+    let txid ← parseHex t
+    let idx ← u32? i
+    some (some (.removeByTxid txid idx))
+  | ["go", h, i] => do let k ← key? h i; some (some (.getByOutpoint (some k)))
+  | ["gon"] => some (some (.getByOutpoint none))
+  | ["gh", h, i] => do let k ← key? h i; some (some (.getByHash k.hash k.index))
+  | ["gt", t, i] => do
+    let txid ← parseHex t
+    let idx ← u32? i
+    some (some (.getByTxid txid idx))
+  | ["sz"] => some (some .size)
+  | ["sl"] => some (some .slice)
+  | ["cl"] => some (some .clone)
+  | "n" :: rest => do let outs ← parseOuts rest; some (some (.new outs))
+  | ["ub", b] => do
+    let bs ← parseHex b
+    match decBlock bs with
+    | .ok (blk, _) => some (some (.updateFromBlock blk watched))
+    | _ => some none
+  | _ => none
+
+def runOps (watched : List Bytes) : List String → State → List String → Option (State × List String)
+  | [], s, acc => some (s, acc.reverse)
+  | o :: rest, s, acc =>
+    match parseOp watched o with
+    | none => none
+    | some none => runOps watched rest s ("x" :: acc)
+    | some (some op) =>
+      let r := Utxo.step txidOf s op
+      runOps watched rest r.1 (outStr r.2 :: acc)
+
+def utxoRun (w ops : String) : String :=
+  match parseWatched w with
+  | none => "bad-op"
+  | some watched =>
+    let opList := if ops == "_" then [] else ops.splitOn ";"
+    match runOps watched opList none [] with
+    | none => "bad-op"
+    | some (s, outs) => s!"ok {joinWith ";" outs} final={listStr (Utxo.slice s)}"
+
+/-! fees -/
+
+def hex16 (n : Nat) : String :=
+  String.ofList ((List.range 16).reverse.map fun i => hexDigit (n / 16 ^ i % 16))
+
+def bitsStr (x : F64) : String := hex16 (F64.toBits x)
+
+def parseTable (s : String) : Option (List (PrevOut × Nat)) :=
+  if s == "_" then some [] else
+  (s.splitOn ",").mapM fun p =>
+    match p.splitOn ":" with
+    | [h, i, v] => do
+      let k ← key? h i
+      let value ← u64? v
+      some (k, value)
+    | _ => none
+
+def tableGet (tbl : List (PrevOut × Nat)) (p : PrevOut) : Option Nat :=
+  (tbl.find? fun e => e.1 == p).map (·.2)
+
+def natOut : Outcome Nat → String
+  | .ok n => toString n
+  | .err => "err"
+  | .panic => "panic"
+
+def f64Out : Outcome F64 → String
+  | .ok x => bitsStr x
+  | .err => "err"
+  | .panic => "panic"
+
+def rangeOut : Outcome (F64 × F64) → String
+  | .ok (a, b) => bitsStr a ++ "," ++ bitsStr b
+  | .err => "err"
+  | .panic => "panic"
+
+def feeTx (txHex tbl : String) : Option String := do
+  let raw ← parseHex txHex
+  let table ← parseTable tbl
+  let get := tableGet table
+  match decTx raw with
+  | .ok (t, _) =>
+    some s!"ok out={Fee.totalOutputValue t} in={natOut (Fee.totalInputValue get t)} fee={natOut (Fee.totalFeeValue get t)} vsize={vsizeTx t} rate={f64Out (Fee.feePerVByte get t)}"
+  | .err => some "err"
+  | .panic => some "panic"
+
+def feeBlock (blkHex tbl : String) : Option String := do
+  let raw ← parseHex blkHex
+  let table ← parseTable tbl
+  let get := tableGet table
+  match decBlock raw with
+  | .ok (b, _) =>
+    some s!"ok ntx={b.txs.length} weight={weightBlock b} total={natOut (Fee.totalFeesForBlock get b)} range={rangeOut (Fee.feeRangeForBlock get b)} avg={f64Out (Fee.averageFeeForBlockPerVByte get b)}"
+  | .err => some "err"
+  | .panic => some "panic"
+
+def feeNaive (h i s : String) : Option String := do
+  let k ← key? h i
+  let txHex : Bytes := if s == "_" then [] else s.toUTF8.toList
+  some (match Fee.naivePrevOutValue (fun _ => some txHex) k with
+    | .ok v => s!"ok {v}"
+    | .err => "err"
+    | .panic => "panic")
+
+/-! satoshis -/
+
+def parseBits (s : String) : Option F64 := do
+  if s.length ≠ 16 then none
+  let digits ← s.toList.mapM hexVal
+  some (F64.ofBits (digits.foldl (fun acc d => 16 * acc + d) 0))
+
+end UtxoOps
+
+open UtxoOps in
 def opUtxo (op : String) (args : List String) : Option String :=
   match op, args with
+  | "utxo.run", [w, ops] => some (utxoRun w ops)
+  | "fee.tx", [t, tbl] => some ((feeTx t tbl).getD "bad-op")
+  | "fee.block", [b, tbl] => some ((feeBlock b tbl).getD "bad-op")
+  | "fee.naive", [h, i, s] => some ((feeNaive h i s).getD "bad-op")
+  | "sat.tobtc", [s] =>
+    match u64? s with
+    | some n => some ("ok " ++ bitsStr (Fee.satsToBitcoins n))
+    | none => some "bad-op"
+  | "sat.tosats", [b] =>
+    match parseBits b with
+    | some x => some (match Fee.bitcoinsToSats x with | some n => s!"ok {n}" | none => "undef")
+    | none => some "bad-op"
+  | "sat.round", [b] =>
+    match parseBits b with
+    | some x => some (match Fee.roundBitcoins x with | some y => "ok " ++ bitsStr y | none => "undef")
+    | none => some "bad-op"
+  | "sat.dec", [k] =>
+    match u64? k with
+    | some n =>
+      -- the decimal literal k/10^8 parsed to the nearest double (strconv.ParseFloat is correctly rounded)
+      let b := F64.ofRat false n 100000000
+      some (match Fee.bitcoinsToSats b with | some v => s!"ok {bitsStr b} {v}" | none => "undef")
+    | none => some "bad-op"
   | _, _ => none
 
 end BtcVerif.Oracle
